@@ -403,9 +403,16 @@ class RefOracle(Oracle):
         records = run.log.take()
         failed_indices = set()
         for r in records:
-            if r.levelno >= logging.WARNING and "Matrix computation failed" in r.getMessage():
-                msg = r.getMessage()
+            if r.levelno < logging.WARNING:
+                continue
+            msg = r.getMessage()
+            if "Matrix computation failed" in msg and "factor matrix " in msg:
                 failed_indices.add(msg.split("factor matrix ", 1)[1].split(" ", 1)[0])
+                run.failure_messages.append(msg[:300])
+            elif "fail" in msg.lower():
+                # a failure warning in another wording (the property only says that a warning is logged): which factor
+                # failed is unknown, so no root / basis of this step is judged
+                failed_indices.add("*")
                 run.failure_messages.append(msg[:300])
         run.failed_this_step = failed_indices
         if exc is not None:
@@ -506,8 +513,10 @@ class RefOracle(Oracle):
                 raise run.violation("factor_mismatch", gi, factor=k, gap=gap, tol=rt_f, **ctx)
 
         # inverse roots / eigenbases
-        any_failed = any(idx.rsplit(".", 1)[0] == f"{self._param_index_in_group(run, b)}.{b.key}" for idx in failed)
-        if any_failed and not self.fault_aware:
+        any_failed = "*" in failed or any(idx.rsplit(".", 1)[0] == f"{self._param_index_in_group(run, b)}.{b.key}" for idx in failed)
+        if any_failed and "*" in failed and not self.fault_aware:
+            run.probes["failure_warning_unparsed"] += 1
+        elif any_failed and not self.fault_aware:
             if hp.solver["type"] in ("newton", "higher_order"):
                 run.probes["solver_failed_natural"] += 1
             else:
@@ -668,7 +677,7 @@ class SoapBasisOracle(Oracle):
                 if not (present and hp.is_refresh(t)):
                     continue
                 pig = run.trace["groups"][gi]["params"].index(b.param_index)
-                if any(idx.rsplit(".", 1)[0] == f"{pig}.{b.key}" for idx in run.failed_this_step):
+                if "*" in run.failed_this_step or any(idx.rsplit(".", 1)[0] == f"{pig}.{b.key}" for idx in run.failed_this_step):
                     continue
                 for k, (Q, L, Qprev) in enumerate(zip(Qs, Ls, self.pre_bases[(gi, b.li)])):
                     n = Q.shape[0]
